@@ -23,7 +23,7 @@ from __future__ import annotations
 import ast
 import copy
 
-PURE_CALLS = {"str", "len", "int", "float", "bool", "abs", "min", "max", "sum", "sorted", "list", "tuple", "set", "dict", "range", "enumerate", "zip", "reversed", "isinstance", "round", "repr", "any", "all"}
+PURE_CALLS = {"slice", "str", "len", "int", "float", "bool", "abs", "min", "max", "sum", "sorted", "list", "tuple", "set", "dict", "range", "enumerate", "zip", "reversed", "isinstance", "round", "repr", "any", "all"}
 
 PURE_METHODS = {"index", "count"}  # list / tuple / str queries
 _NONMUTATING_ROOTS = {"np", "numpy", "nla", "math", "sla", "scipy", "la", "copy"}
@@ -180,6 +180,114 @@ def _immutable_atom(e) -> bool:
     return False
 
 
+class _ChainFlatten(ast.NodeTransformer):
+    """`list(chain.from_iterable(X))` / `list(itertools.chain(*X))` -> `[item for part in X for item in part]` (also under
+    tuple / set / sum / max / min / any / all / sorted, where the lazy iterator is consumed on the spot)."""
+
+    CONSUMERS = {"list", "tuple", "set", "sum", "max", "min", "any", "all", "sorted", "len"}
+
+    def __init__(self):
+        self.changed = False
+        self.k = 0
+
+    @staticmethod
+    def _chained(e):
+        if isinstance(e, ast.Call) and _u(e.func) in ("chain.from_iterable", "itertools.chain.from_iterable") and len(e.args) == 1 and not e.keywords:
+            return e.args[0]
+        if isinstance(e, ast.Call) and _u(e.func) in ("chain", "itertools.chain") and len(e.args) == 1 and isinstance(e.args[0], ast.Starred) and not e.keywords:
+            return e.args[0].value
+        return None
+
+    def _gen(self, src, at):
+        self.k += 1
+        part, item = f"__chain_part_{self.k}", f"__chain_item_{self.k}"
+        gens = [ast.comprehension(target=ast.Name(id=part, ctx=ast.Store()), iter=src, ifs=[], is_async=0), ast.comprehension(target=ast.Name(id=item, ctx=ast.Store()), iter=ast.Name(id=part, ctx=ast.Load()), ifs=[], is_async=0)]
+        return ast.Name(id=item, ctx=ast.Load()), gens
+
+    def visit_Call(self, node):
+        self.generic_visit(node)
+        # sum(sum(e for y in Y) for x in X)  ->  sum(e for x in X for y in Y)   (exact arithmetic; evaluation order kept)
+        if isinstance(node.func, ast.Name) and node.func.id == "sum" and len(node.args) == 1 and not node.keywords and isinstance(node.args[0], (ast.GeneratorExp, ast.ListComp)):
+            outer = node.args[0]
+            inner = outer.elt
+            if isinstance(inner, ast.Call) and isinstance(inner.func, ast.Name) and inner.func.id == "sum" and len(inner.args) == 1 and not inner.keywords and isinstance(inner.args[0], (ast.GeneratorExp, ast.ListComp)):
+                node.args[0] = ast.GeneratorExp(elt=inner.args[0].elt, generators=list(outer.generators) + list(inner.args[0].generators))
+                self.changed = True
+                return ast.fix_missing_locations(node)
+        if isinstance(node.func, ast.Name) and node.func.id in self.CONSUMERS and node.args and not any(isinstance(a, ast.Starred) for a in node.args):
+            src = self._chained(node.args[0])
+            if src is not None:
+                elt, gens = self._gen(src, node)
+                self.changed = True
+                if node.func.id == "list" and len(node.args) == 1 and not node.keywords:
+                    return ast.fix_missing_locations(ast.copy_location(ast.ListComp(elt=elt, generators=gens), node))
+                node.args[0] = ast.GeneratorExp(elt=elt, generators=gens)
+                return ast.fix_missing_locations(node)
+        return node
+
+    def visit_For(self, node):
+        self.generic_visit(node)
+        src = self._chained(node.iter)
+        if src is not None and not node.orelse and not any(isinstance(x, ast.Break) for st in node.body for x in ast.walk(st)):
+            self.k += 1
+            part = f"__chain_part_{self.k}"
+            inner = ast.For(target=node.target, iter=ast.Name(id=part, ctx=ast.Load()), body=node.body, orelse=[])
+            outer = ast.For(target=ast.Name(id=part, ctx=ast.Store()), iter=src, body=[inner], orelse=[])
+            ast.copy_location(inner, node)
+            self.changed = True
+            return ast.fix_missing_locations(ast.copy_location(outer, node))
+        return node
+
+    def _split_generators(self, node):
+        self.generic_visit(node)
+        gens = []
+        for g in node.generators:
+            src = self._chained(g.iter)
+            if src is not None and not g.is_async:
+                self.k += 1
+                part = f"__chain_part_{self.k}"
+                gens.append(ast.comprehension(target=ast.Name(id=part, ctx=ast.Store()), iter=src, ifs=[], is_async=0))
+                gens.append(ast.comprehension(target=g.target, iter=ast.Name(id=part, ctx=ast.Load()), ifs=g.ifs, is_async=0))
+                self.changed = True
+            else:
+                gens.append(g)
+        node.generators = gens
+        # for t in (E for g1 .. gn)   ->   for g1 .. gn   with t := E      (E pure, or t used once)
+        k = 0
+        while k < len(node.generators):
+            g = node.generators[k]
+            inner = g.iter
+            if isinstance(inner, (ast.GeneratorExp, ast.ListComp)) and isinstance(g.target, ast.Name) and not g.is_async and not any(x.is_async for x in inner.generators):
+                t = g.target.id
+                rest = [x for gg in node.generators[k + 1:] for x in [gg.iter] + gg.ifs] + g.ifs + ([node.key, node.value] if isinstance(node, ast.DictComp) else [node.elt])
+                uses = sum(1 for r_ in rest for x in ast.walk(r_) if isinstance(x, ast.Name) and x.id == t)
+                inner_names = set()
+                for ig in inner.generators:
+                    inner_names |= _names_stored(ig.target)
+                outer_names = set()
+                for og in node.generators:
+                    if og is not g:
+                        outer_names |= _names_stored(og.target)
+                if (uses <= 1 or _is_simple_expr(inner.elt)) and not (inner_names & outer_names) and t not in inner_names:
+                    m = {t: inner.elt}
+                    new_gens = node.generators[:k] + list(inner.generators)
+                    if g.ifs:
+                        new_gens[-1].ifs = list(new_gens[-1].ifs) + [_subst(c, m) for c in g.ifs]
+                    for gg in node.generators[k + 1:]:
+                        new_gens.append(ast.comprehension(target=gg.target, iter=_subst(gg.iter, m), ifs=[_subst(c, m) for c in gg.ifs], is_async=gg.is_async))
+                    node.generators = new_gens
+                    if isinstance(node, ast.DictComp):
+                        node.key, node.value = _subst(node.key, m), _subst(node.value, m)
+                    else:
+                        node.elt = _subst(node.elt, m)
+                    self.changed = True
+                    continue
+            k += 1
+        return ast.fix_missing_locations(node)
+
+    visit_ListComp = visit_GeneratorExp = visit_SetComp = visit_DictComp = _split_generators
+
+
 class _BoolSimplify(ast.NodeTransformer):
     """`True if c else X` -> `c or X`, `X if c else False` -> `c and X`, ... everywhere; `bool(X)` -> X where only the truth
     value is used (if / while tests, operands of not / and / or inside such tests)."""
@@ -195,14 +303,98 @@ class _BoolSimplify(ast.NodeTransformer):
             return ast.copy_location(new, node)
         return node
 
+    def visit_Call(self, node):
+        """`getattr(X, "name")` with a literal identifier and no default is `X.name`."""
+        self.generic_visit(node)
+        # (f if c else g)(args)  ->  f(args) if c else g(args)   (the test is evaluated before the arguments either way)
+        if isinstance(node.func, ast.IfExp) and _is_simple_expr(node.func.test):
+            a = ast.Call(func=node.func.body, args=node.args, keywords=node.keywords)
+            b = ast.Call(func=node.func.orelse, args=copy.deepcopy(node.args), keywords=copy.deepcopy(node.keywords))
+            self.changed = True
+            return ast.fix_missing_locations(ast.copy_location(ast.IfExp(test=node.func.test, body=a, orelse=b), node))
+        if isinstance(node.func, ast.Name) and node.func.id == "getattr" and len(node.args) == 2 and not node.keywords and isinstance(node.args[1], ast.Constant) and isinstance(node.args[1].value, str) and node.args[1].value.isidentifier():
+            self.changed = True
+            return ast.copy_location(ast.Attribute(value=node.args[0], attr=node.args[1].value, ctx=ast.Load()), node)
+        return node
+
+    def visit_Subscript(self, node):
+        """`V[slice(a, b)]` -> `V[a:b]`;  `V[A if c else B]` -> `V[A] if c else V[B]` for pure V and c (only one arm is ever
+        evaluated, and a pure V reads the same whether it is evaluated before or after c)."""
+        self.generic_visit(node)
+        sl = node.slice
+        if isinstance(sl, ast.Call) and isinstance(sl.func, ast.Name) and sl.func.id == "slice" and not sl.keywords and 1 <= len(sl.args) <= 3 and not any(isinstance(a, ast.Starred) for a in sl.args):
+            args = list(sl.args)
+            if len(args) == 1:
+                args = [ast.Constant(value=None), args[0]]
+            parts = [None if (isinstance(a, ast.Constant) and a.value is None) else a for a in args] + [None] * (3 - len(args))
+            node.slice = ast.copy_location(ast.Slice(lower=parts[0], upper=parts[1], step=parts[2]), sl)
+            self.changed = True
+            return node
+        def _slicey(e):
+            return isinstance(e, ast.Slice) or (isinstance(e, ast.Call) and isinstance(e.func, ast.Name) and e.func.id == "slice")
+
+        if isinstance(sl, ast.IfExp) and _slicey(sl.body) and _slicey(sl.orelse) and isinstance(node.ctx, ast.Load) and _is_simple_expr(node.value) and _is_simple_expr(sl.test):
+            a = ast.Subscript(value=node.value, slice=sl.body, ctx=ast.Load())
+            b = ast.Subscript(value=copy.deepcopy(node.value), slice=sl.orelse, ctx=ast.Load())
+            new = ast.IfExp(test=sl.test, body=self.visit_Subscript(a), orelse=self.visit_Subscript(b))
+            self.changed = True
+            return ast.fix_missing_locations(ast.copy_location(new, node))
+        return node
+
+    @staticmethod
+    def _const(e):
+        return isinstance(e, ast.Constant) and isinstance(e.value, bool)
+
+    def visit_BoolOp(self, node):
+        """exact constant folding: `True and X` -> X, `False and X` -> False, `False or X` -> X, `True or X` -> True"""
+        self.generic_visit(node)
+        is_and = isinstance(node.op, ast.And)
+        vals = []
+        for k, v in enumerate(node.values):
+            last = k == len(node.values) - 1
+            if self._const(v) and not last:
+                if v.value == is_and:
+                    self.changed = True
+                    continue  # neutral element in a non-final position
+                vals.append(v)  # absorbing element: nothing after it is evaluated
+                self.changed = True
+                break
+            vals.append(v)
+        if len(vals) == 1:
+            return vals[0]
+        node.values = vals
+        return node
+
+    def visit_UnaryOp(self, node):
+        self.generic_visit(node)
+        if isinstance(node.op, ast.Not) and self._const(node.operand):
+            self.changed = True
+            return ast.copy_location(ast.Constant(value=not node.operand.value), node)
+        return node
+
     def _truth(self, e):
+        """simplifications valid where only the truth value of e is used"""
         if isinstance(e, ast.Call) and isinstance(e.func, ast.Name) and e.func.id == "bool" and len(e.args) == 1 and not e.keywords:
             self.changed = True
             return self._truth(e.args[0])
         if isinstance(e, ast.BoolOp):
-            e.values = [self._truth(v) for v in e.values]
+            is_and = isinstance(e.op, ast.And)
+            vals = [self._truth(v) for v in e.values]
+            # a neutral constant in final position (`X and True`, `X or False`) does not change the truth value
+            while len(vals) > 1 and self._const(vals[-1]) and vals[-1].value == is_and:
+                vals.pop()
+                self.changed = True
+            if len(vals) == 1:
+                return vals[0]
+            e.values = vals
         elif isinstance(e, ast.UnaryOp) and isinstance(e.op, ast.Not):
             e.operand = self._truth(e.operand)
+            if isinstance(e.operand, ast.UnaryOp) and isinstance(e.operand.op, ast.Not):
+                self.changed = True
+                return e.operand.operand
+            if self._const(e.operand):
+                self.changed = True
+                return ast.copy_location(ast.Constant(value=not e.operand.value), e)
         return e
 
     def visit_If(self, node):
@@ -213,6 +405,18 @@ class _BoolSimplify(ast.NodeTransformer):
     def visit_While(self, node):
         self.generic_visit(node)
         node.test = self._truth(node.test)
+        return node
+
+    def visit_comprehension(self, node):
+        self.generic_visit(node)
+        ifs = []
+        for c in node.ifs:
+            c = self._truth(c)
+            if self._const(c) and c.value is True:
+                self.changed = True
+                continue
+            ifs.append(c)
+        node.ifs = ifs
         return node
 
 
@@ -251,11 +455,33 @@ def _calls_before_node(x: ast.AST, target: ast.AST):
     return [n for n, _ in order[:idx] if isinstance(n, ast.Call) and id(n) not in ancestors]
 
 
+def _evaluated_exactly_once(root: ast.AST, target: ast.AST) -> bool:
+    """Is `target` evaluated exactly once whenever `root` is (not under a short-circuit operand, a conditional arm, a
+    lambda, or the repeated part of a comprehension)?"""
+    def dfs(n):
+        if n is target:
+            return True
+        if isinstance(n, ast.BoolOp):
+            return bool(n.values) and dfs(n.values[0])
+        if isinstance(n, ast.IfExp):
+            return dfs(n.test)
+        if isinstance(n, ast.Lambda):
+            return False
+        if isinstance(n, (ast.ListComp, ast.SetComp, ast.GeneratorExp, ast.DictComp)):
+            return not isinstance(n, ast.GeneratorExp) and bool(n.generators) and dfs(n.generators[0].iter)
+        if isinstance(n, ast.Compare) and len(n.ops) > 1:
+            return dfs(n.left) or dfs(n.comparators[0])
+        return any(dfs(ch) for ch in ast.iter_child_nodes(n))
+    return dfs(root)
+
+
 class _ScopeCounts:
     """Loads / stores of every name in one function (nested functions and comprehensions included)."""
 
     def __init__(self, fn):
         self.fn = fn
+        a = fn.args
+        self.params = [x.arg for x in a.posonlyargs + a.args + a.kwonlyargs] + ([a.vararg.arg] if a.vararg else []) + ([a.kwarg.arg] if a.kwarg else [])
         self.recount()
 
     def recount(self):
@@ -346,8 +572,10 @@ class BlockNormalizer:
         ci.visit(tree)
         bs = _BoolSimplify()
         bs.visit(tree)
+        cf = _ChainFlatten()
+        cf.visit(tree)
         ast.fix_missing_locations(tree)
-        self.changed = self.changed or ci.changed or bs.changed
+        self.changed = self.changed or ci.changed or bs.changed or cf.changed
         self._walk(tree, None)
 
     def _walk(self, n, scope):
@@ -381,6 +609,8 @@ class BlockNormalizer:
         out = self.n11_coalesce_alias(out)
         out = self.n12_copy_of_dead_name(out, owner, fld)
         out = self.n14_attribute_alias(out, owner, fld)
+        out = self.n20_worklist_loop(out)
+        out = self.n21_unflatten_pairs(out)
         if len(out) != len(stmts) or any(a is not b for a, b in zip(out, stmts)):
             self.changed = True
             return out if out else [ast.Pass()]
@@ -500,6 +730,8 @@ class BlockNormalizer:
                 if res is not None:
                     gens, inner = res
                     repl = self._fold_loop(out, i, s, gens, inner)
+                    if repl is None:
+                        repl = self._fold_running_extreme(out, i, s, gens, inner)
                     if repl is not None:
                         out = repl
                         continue
@@ -536,7 +768,8 @@ class BlockNormalizer:
                     continue
                 # unrelated simple assignment not touching accumulators / loop iterables
                 val = p.value
-                if val is not None and not (_names_loaded(p) & set(accs)) and not (_names_stored(p) & set().union(*[_names_loaded(g.iter) for g in gens])):
+                # (the folded comprehension stays at the loop's position, so what these statements store is seen by it as before)
+                if val is not None and not (_names_loaded(p) & set(accs)):
                     scanned.append(p)
                     j -= 1
                     continue
@@ -580,6 +813,96 @@ class BlockNormalizer:
         drop = {j0 for j0, _ in inits.values()}
         res = [s for k, s in enumerate(stmts[:i]) if k not in drop] + new_assigns + stmts[i + 1:]
         return res
+
+    def _fold_running_extreme(self, stmts, i, loop, gens, inner):
+        """acc = INIT; for ..: [c = E]; if acc is INIT or c > acc: acc = c    ->   acc = max((E for ..), default=INIT)
+        (strict comparison only: like max(), the first of several equal maxima is kept; `<` gives min).  INIT is None or a
+        sentinel name.  Also the if / elif spelling of the same test."""
+        if self.scope is None or not inner or len(inner) > 2:
+            return None
+        cdef = None
+        if len(inner) == 2:
+            a0 = inner[0]
+            if not (isinstance(a0, ast.Assign) and len(a0.targets) == 1 and isinstance(a0.targets[0], ast.Name)):
+                return None
+            cdef = a0
+        st = inner[-1]
+        if not isinstance(st, ast.If):
+            return None
+
+        def assign_of(body):
+            if len(body) == 1 and isinstance(body[0], ast.Assign) and len(body[0].targets) == 1 and isinstance(body[0].targets[0], ast.Name):
+                return body[0].targets[0].id, body[0].value
+            return None
+
+        tests = None
+        a1 = assign_of(st.body)
+        if a1 is None:
+            return None
+        acc, cexpr = a1
+        if not st.orelse and isinstance(st.test, ast.BoolOp) and isinstance(st.test.op, ast.Or) and len(st.test.values) == 2:
+            tests = st.test.values
+        elif len(st.orelse) == 1 and isinstance(st.orelse[0], ast.If) and not st.orelse[0].orelse:
+            a2 = assign_of(st.orelse[0].body)
+            if a2 is None or a2[0] != acc or _u(a2[1]) != _u(cexpr):
+                return None
+            tests = [st.test, st.orelse[0].test]
+        if tests is None:
+            return None
+        t_init, t_cmp = tests
+        if not (isinstance(t_init, ast.Compare) and len(t_init.ops) == 1 and isinstance(t_init.ops[0], ast.Is) and isinstance(t_init.left, ast.Name) and t_init.left.id == acc):
+            return None
+        init_e = t_init.comparators[0]
+        if not ((isinstance(init_e, ast.Constant) and init_e.value is None) or isinstance(init_e, ast.Name)):
+            return None
+        if not (isinstance(t_cmp, ast.Compare) and len(t_cmp.ops) == 1 and isinstance(t_cmp.ops[0], (ast.Gt, ast.Lt))):
+            return None
+        l, r, gt = _u(t_cmp.left), _u(t_cmp.comparators[0]), isinstance(t_cmp.ops[0], ast.Gt)
+        if l == _u(cexpr) and r == acc:
+            fn = "max" if gt else "min"
+        elif l == acc and r == _u(cexpr):
+            fn = "min" if gt else "max"
+        else:
+            return None
+        elt = cexpr
+        if cdef is not None:
+            cn = cdef.targets[0].id
+            if not (isinstance(cexpr, ast.Name) and cexpr.id == cn):
+                return None
+            # the local candidate must not be used outside this loop body
+            inside = sum(1 for x in ast.walk(loop) if isinstance(x, ast.Name) and x.id == cn)
+            if self.scope.loads.get(cn, 0) + self.scope.stores.get(cn, 0) != inside:
+                return None
+            elt = cdef.value
+        elif not _is_simple_expr(cexpr):
+            return None  # evaluated up to three times per iteration in the loop form
+        loop_vars = set()
+        for g in gens:
+            loop_vars |= _names_stored(g.target)
+        if acc in loop_vars or acc in _names_loaded(elt) or any(acc in _names_loaded(g.iter) or any(acc in _names_loaded(c) for c in g.ifs) for g in gens):
+            return None
+        # the initialisation right before the loop (unrelated simple assignments may sit in between)
+        j = i - 1
+        init_j = None
+        while j >= 0:
+            p_ = stmts[j]
+            if isinstance(p_, ast.Assign) and len(p_.targets) == 1 and isinstance(p_.targets[0], ast.Name):
+                if p_.targets[0].id == acc:
+                    init_j = j
+                    break
+                if acc not in _names_loaded(p_):
+                    j -= 1
+                    continue
+            break
+        if init_j is None or _u(stmts[init_j].value) != _u(init_e):
+            return None
+        if isinstance(init_e, ast.Name) and self.scope.stores.get(init_e.id, 0) != 1:
+            return None
+        call = ast.Call(func=ast.Name(id=fn, ctx=ast.Load()), args=[ast.GeneratorExp(elt=copy.deepcopy(elt), generators=[copy.deepcopy(g) for g in gens])], keywords=[ast.keyword(arg="default", value=copy.deepcopy(init_e))])
+        a = ast.Assign(targets=[ast.Name(id=acc, ctx=ast.Store())], value=call)
+        ast.copy_location(a, loop)
+        ast.fix_missing_locations(a)
+        return [x for k, x in enumerate(stmts[:i]) if k != init_j] + [a] + stmts[i + 1:]
 
     @staticmethod
     def _update_of(st):
@@ -743,6 +1066,144 @@ class BlockNormalizer:
             if not done:
                 i += 1
         return stmts
+
+    def n20_worklist_loop(self, stmts):
+        """L = E; while L: T = L.pop(); BODY   ->   for T in reversed(E): BODY      (`pop(0)`: for T in E)
+        when L is used for nothing else in the function and BODY does not mention it: the list is only a cursor."""
+        if self.scope is None:
+            return stmts
+        out = list(stmts)
+        i = 1
+        while i < len(out):
+            w, a = out[i], out[i - 1]
+            if (isinstance(w, ast.While) and not w.orelse and isinstance(w.test, ast.Name) and w.body and isinstance(a, ast.Assign) and len(a.targets) == 1 and isinstance(a.targets[0], ast.Name) and a.targets[0].id == w.test.id):
+                L = w.test.id
+                first = w.body[0]
+                if (isinstance(first, ast.Assign) and len(first.targets) == 1 and isinstance(first.value, ast.Call) and isinstance(first.value.func, ast.Attribute) and first.value.func.attr == "pop" and isinstance(first.value.func.value, ast.Name) and first.value.func.value.id == L and not first.value.keywords
+                        and (not first.value.args or (len(first.value.args) == 1 and isinstance(first.value.args[0], ast.Constant) and first.value.args[0].value in (0, -1)))
+                        and self.scope.stores.get(L, 0) == 1 and self.scope.loads.get(L, 0) == 2
+                        and not any(isinstance(x, ast.Name) and x.id == L for st in w.body[1:] for x in ast.walk(st))
+                        and not any(isinstance(x, ast.Name) and x.id == L for x in ast.walk(first.targets[0]))
+                        and L not in _names_loaded(a.value)):
+                    fwd = bool(first.value.args) and first.value.args[0].value == 0
+                    it = a.value if fwd else ast.Call(func=ast.Name(id="reversed", ctx=ast.Load()), args=[a.value], keywords=[])
+                    loop = ast.For(target=first.targets[0], iter=it, body=w.body[1:] or [ast.Pass()], orelse=[])
+                    ast.copy_location(loop, w)
+                    ast.fix_missing_locations(loop)
+                    out[i - 1:i + 1] = [loop]
+                    self.scope.recount()
+                    continue
+            i += 1
+        return out
+
+    _MUTATORS = {"append", "extend", "insert", "pop", "remove", "clear", "update", "setdefault", "popitem", "sort", "reverse", "add", "discard", "__setitem__", "__delitem__"}
+
+    def n21_unflatten_pairs(self, stmts):
+        """for T in [E for g1 .. gn (if c)]: BODY   ->   for g1: .. for gn: if c: BODY   with T := E
+        (the comprehension directly in the loop header, or bound just before to a local used nowhere else).  E consists of
+        the comprehension's own variables (a name or a tuple of names matched against T).  Materialising the list first and
+        producing the elements on the fly visit the same elements in the same order provided BODY cannot change what the
+        inner iterables and the filters read: the first iterable is evaluated once before the loop either way; for the rest,
+        BODY must not rebind the local names they read, store the attributes they read, call a mutator on the objects they
+        are rooted at, or pass those roots to a call (calls made by BODY are otherwise assumed not to write the attributes
+        the filters read - for `_hibernating` / `_active` that is exactly what R18.2 / R06.1 establish)."""
+        if self.scope is None:
+            return stmts
+        out = list(stmts)
+        i = 0
+        while i < len(out):
+            lp = out[i]
+            tnames = None
+            if isinstance(lp, ast.For) and not lp.orelse:
+                if isinstance(lp.target, ast.Name):
+                    tnames = [lp.target.id]
+                elif isinstance(lp.target, ast.Tuple) and all(isinstance(x, ast.Name) for x in lp.target.elts):
+                    tnames = [x.id for x in lp.target.elts]
+            if tnames is None or not isinstance(lp.iter, (ast.Name, ast.ListComp, ast.GeneratorExp)):
+                i += 1
+                continue
+            if isinstance(lp.iter, ast.Name):
+                L = lp.iter.id
+                j = next((k for k in range(i - 1, max(i - 6, -1), -1) if isinstance(out[k], (ast.Assign, ast.AnnAssign)) and isinstance(out[k].targets[0] if isinstance(out[k], ast.Assign) else out[k].target, ast.Name) and (out[k].targets[0] if isinstance(out[k], ast.Assign) else out[k].target).id == L), None)
+                if j is None or self.scope.stores.get(L, 0) != 1 or self.scope.loads.get(L, 0) != 1 or not isinstance(out[j].value, ast.ListComp):
+                    i += 1
+                    continue
+                comp = out[j].value
+            else:
+                j = None
+                comp = lp.iter
+            elts = [comp.elt] if isinstance(comp.elt, ast.Name) else list(comp.elt.elts) if isinstance(comp.elt, ast.Tuple) else None
+            bound = set()
+            for g in comp.generators:
+                bound |= _names_stored(g.target)
+            if elts is None or len(elts) != len(tnames) or not all(isinstance(e_, ast.Name) and e_.id in bound for e_ in elts) or len({e_.id for e_ in elts}) != len(elts) or any(g.is_async for g in comp.generators) or len(set(tnames)) != len(tnames):
+                i += 1
+                continue
+            cnames = [e_.id for e_ in elts]
+            comp = copy.deepcopy(comp)
+            if cnames != tnames:
+                others = set()
+                for x in ast.walk(comp):
+                    if isinstance(x, ast.Name) and x.id not in cnames:
+                        others.add(x.id)
+                if set(tnames) & others:
+                    i += 1
+                    continue
+                m = dict(zip(cnames, tnames))
+                for x in ast.walk(comp):
+                    if isinstance(x, ast.Name) and x.id in m:
+                        x.id = m[x.id]
+            bound = set()
+            for g in comp.generators:
+                bound |= _names_stored(g.target)
+            # what the lazily evaluated parts read
+            lazy = [c for g in comp.generators for c in g.ifs] + [g.iter for g in comp.generators[1:]]
+            read_names, read_attrs = set(), set()
+            for e_ in lazy:
+                read_names |= _names_loaded(e_)
+                read_attrs |= {x.attr for x in ast.walk(e_) if isinstance(x, ast.Attribute)}
+            roots = read_names - bound
+            ok = all(_is_simple_expr(e_) or (isinstance(e_, ast.Call) and isinstance(e_.func, ast.Attribute) and e_.func.attr in ("keys", "values", "items") and not e_.args and _is_simple_expr(e_.func.value)) for e_ in lazy)
+            between = out[j + 1:i] if j is not None else []
+            ok = ok and all(isinstance(b_, (ast.Assign, ast.AnnAssign)) and not (_names_stored(b_) & (roots | bound | _names_loaded(comp))) and all(_nonmutating_call(c) for c in ast.walk(b_) if isinstance(c, ast.Call)) for b_ in between)
+            if ok:
+                for st in lp.body:
+                    for x in ast.walk(st):
+                        if isinstance(x, ast.Name) and isinstance(x.ctx, (ast.Store, ast.Del)) and x.id in (roots | bound):
+                            ok = False
+                        if isinstance(x, ast.Attribute) and isinstance(x.ctx, (ast.Store, ast.Del)) and x.attr in read_attrs:
+                            ok = False
+                        if isinstance(x, (ast.Subscript, ast.Attribute)) and isinstance(x.ctx, (ast.Store, ast.Del)):
+                            r_ = x
+                            while isinstance(r_, (ast.Subscript, ast.Attribute)):
+                                r_ = r_.value
+                            if isinstance(r_, ast.Name) and r_.id in roots and r_.id not in ("self",):
+                                ok = False
+                        if isinstance(x, ast.Call) and isinstance(x.func, ast.Attribute) and x.func.attr in self._MUTATORS:
+                            r_ = x.func.value
+                            while isinstance(r_, (ast.Subscript, ast.Attribute)):
+                                r_ = r_.value
+                            if isinstance(r_, ast.Name) and r_.id in roots and r_.id not in ("self",):
+                                ok = False
+                        if isinstance(x, ast.Call) and any(isinstance(a_, ast.Name) and a_.id in roots and a_.id != "self" for a_ in list(x.args) + [k.value for k in x.keywords]):
+                            ok = False
+            if not ok:
+                i += 1
+                continue
+            body = lp.body
+            for g in reversed(comp.generators):
+                for c in reversed(g.ifs):
+                    body = [ast.If(test=c, body=body, orelse=[])]
+                body = [ast.For(target=g.target, iter=g.iter, body=body, orelse=[])]
+            new_loop = body[0]
+            ast.copy_location(new_loop, lp)
+            ast.fix_missing_locations(new_loop)
+            out[i] = new_loop
+            if j is not None:
+                del out[j]
+            self.scope.recount()
+            continue
+        return out
 
     def n11_coalesce_alias(self, stmts):
         """t = E ; ... uses of t ... ; a = t   ->   a = E ; ... uses of a ...    when t is defined once, every use of t lies
@@ -983,7 +1444,8 @@ def _replace_tail_returns(block, make_stmt):
 class Inliner:
     """N6: inline private, non-anchor, straight-line helpers of the same module."""
 
-    def __init__(self, tree: ast.Module, baseline_helpers_ok: bool = True):
+    def __init__(self, tree: ast.Module, baseline_helpers_ok: bool = True, foreign_refs: set | None = None):
+        self.foreign_refs = foreign_refs or set()
         self.tree = tree
         self.changed = False
         self.counter = 0
@@ -1047,7 +1509,7 @@ class Inliner:
             elif isinstance(x, ast.Name):
                 refs.add(x.id)
         for (cname, name), (fn, kind, body) in list(self.helpers.items()):
-            if name not in refs:
+            if name not in refs and name not in self.foreign_refs:
                 owner = self.tree if cname is None else next(c for c in self.tree.body if isinstance(c, ast.ClassDef) and c.name == cname)
                 if fn in owner.body and len(owner.body) > 1:
                     owner.body.remove(fn)
@@ -1061,10 +1523,38 @@ class Inliner:
         if isinstance(f, ast.Attribute) and isinstance(f.value, ast.Name):
             if cls is not None and f.value.id in (selfn, cls.name, "cls"):
                 h = self.helpers.get((cls.name, f.attr))
+                # inherited helper: defined in a base class of the same module and not overridden on the way
+                cur, hops = cls, 0
+                while h is None and hops < 4:
+                    hops += 1
+                    if any(isinstance(b, ast.FunctionDef) and b.name == f.attr for b in cur.body):
+                        break
+                    bases = [b.id for b in cur.bases if isinstance(b, ast.Name)]
+                    nxt = [c for c in self.tree.body if isinstance(c, ast.ClassDef) and c.name in bases]
+                    if len(bases) != 1 or len(nxt) != 1:
+                        break
+                    cur = nxt[0]
+                    h = self.helpers.get((cur.name, f.attr))
                 if h is None:
+                    return None, 0
+                if self._overridden_below(h, f.attr):
                     return None, 0
                 return h, (1 if h[1] in ("method", "class") else 0)
         return None, 0
+
+    def _overridden_below(self, h, name) -> bool:
+        """A subclass in this module redefines the helper: `self.helper()` may dispatch there, so do not inline."""
+        owner = next((c for c in self.tree.body if isinstance(c, ast.ClassDef) and h[0] in c.body), None)
+        if owner is None:
+            return False
+        subs, grew = {owner.name}, True
+        while grew:
+            grew = False
+            for c in self.tree.body:
+                if isinstance(c, ast.ClassDef) and c.name not in subs and any(isinstance(b, ast.Name) and b.id in subs for b in c.bases):
+                    subs.add(c.name)
+                    grew = True
+        return any(isinstance(c, ast.ClassDef) and c.name in subs and c is not owner and any(isinstance(b, ast.FunctionDef) and b.name == name for b in c.body) for c in self.tree.body)
 
     def _bind(self, fn: ast.FunctionDef, call: ast.Call, skip: int, recv: ast.expr | None):
         """-> (mapping param -> expr, prelude statements) or None"""
@@ -1185,7 +1675,7 @@ class Inliner:
                         res = list(prelude) + core
                         rv = last.value if last is not None and last.value is not None else ast.Constant(value=None)
                         if isinstance(s, ast.Expr):
-                            if last is not None and last.value is not None and not isinstance(last.value, ast.Constant):
+                            if last is not None and last.value is not None and not isinstance(last.value, (ast.Constant, ast.Name)):
                                 res.append(ast.Expr(value=rv))
                         elif isinstance(s, ast.Assign):
                             res.append(ast.Assign(targets=s.targets, value=rv))
@@ -1207,6 +1697,10 @@ class Inliner:
         hoisted = []
         simple_stmt = isinstance(s, (ast.Assign, ast.AnnAssign, ast.Return, ast.Expr)) and getattr(s, "value", None) is not None
         s_root = s.value if simple_stmt else s
+        if isinstance(s, ast.For):
+            simple_stmt, s_root = True, s.iter  # the iterable is evaluated once, before the loop
+        elif isinstance(s, ast.If):
+            simple_stmt, s_root = True, s.test
 
         class T(ast.NodeTransformer):
             def generic_visit(self, node):
@@ -1238,7 +1732,7 @@ class Inliner:
                     # a straight-line helper with one final return: hoist its body in front of the statement when nothing
                     # with effects is evaluated in the statement before the call
                     multi_ok = len(body) >= 2 and isinstance(body[-1], ast.Return) and body[-1].value is not None and not any(isinstance(x, ast.Return) for st in body[:-1] for x in ast.walk(st))
-                    if not (multi_ok and simple_stmt and all(_nonmutating_call(c) for c in _calls_before_node(s_root, node))):
+                    if not (multi_ok and simple_stmt and _evaluated_exactly_once(s_root, node) and all(_nonmutating_call(c) for c in _calls_before_node(s_root, node))):
                         return node
                     recv = node.func.value if isinstance(node.func, ast.Attribute) else None
                     bound = outer._bind(fn, node, skip, recv)
@@ -1425,7 +1919,174 @@ def inline_nested_predicates(tree: ast.Module) -> bool:
     return changed
 
 
-def normalize_module(tree: ast.Module, max_rounds: int = 6) -> ast.Module:
+def strip_truth_casts(tree: ast.Module) -> bool:
+    """N16: `flag = bool(E)` where the local `flag` is only ever read in truth contexts (tests of if / while / conditional
+    expressions / assert, operands of not / and / or inside such tests) is the same as `flag = E`."""
+    changed = False
+    for f in [n for n in ast.walk(tree) if isinstance(n, (ast.FunctionDef, ast.AsyncFunctionDef))]:
+        truth_ids = set()
+
+        def mark(e):
+            if isinstance(e, ast.Name):
+                truth_ids.add(id(e))
+            elif isinstance(e, ast.UnaryOp) and isinstance(e.op, ast.Not):
+                mark(e.operand)
+            elif isinstance(e, ast.BoolOp):
+                for v in e.values:
+                    mark(v)
+        for n in ast.walk(f):
+            if isinstance(n, (ast.If, ast.While, ast.IfExp, ast.Assert)):
+                mark(n.test)
+            elif isinstance(n, ast.comprehension):
+                for c in n.ifs:
+                    mark(c)
+        casts = {}
+        bad = set()
+        for n in ast.walk(f):
+            if isinstance(n, ast.Assign) and len(n.targets) == 1 and isinstance(n.targets[0], ast.Name):
+                v = n.value
+                nm = n.targets[0].id
+                if isinstance(v, ast.Call) and isinstance(v.func, ast.Name) and v.func.id == "bool" and len(v.args) == 1 and not v.keywords:
+                    casts.setdefault(nm, []).append(n)
+                elif isinstance(v, ast.Constant) and isinstance(v.value, bool):
+                    pass
+                elif isinstance(v, ast.BoolOp) and all(isinstance(x, (ast.Name, ast.Call, ast.UnaryOp, ast.Compare)) for x in v.values):
+                    pass
+                else:
+                    bad.add(nm)
+            elif isinstance(n, (ast.AugAssign, ast.AnnAssign, ast.For, ast.NamedExpr, ast.With, ast.arg, ast.Global, ast.Nonlocal)):
+                for x in ast.walk(n.target if hasattr(n, "target") else n):
+                    if isinstance(x, ast.Name) and isinstance(x.ctx, ast.Store):
+                        bad.add(x.id)
+                if isinstance(n, ast.arg):
+                    bad.add(n.arg)
+                if isinstance(n, (ast.Global, ast.Nonlocal)):
+                    bad |= set(n.names)
+            elif isinstance(n, ast.Tuple) and isinstance(n.ctx, ast.Store):
+                bad |= {x.id for x in ast.walk(n) if isinstance(x, ast.Name)}
+        for n in ast.walk(f):
+            if isinstance(n, ast.Name) and isinstance(n.ctx, ast.Load) and n.id in casts and id(n) not in truth_ids:
+                bad.add(n.id)
+            if isinstance(n, (ast.FunctionDef, ast.Lambda)) and n is not f:
+                bad |= {x.id for x in ast.walk(n) if isinstance(x, ast.Name)}
+        for nm, sts in casts.items():
+            if nm in bad:
+                continue
+            for st in sts:
+                st.value = st.value.args[0]
+                changed = True
+    return changed
+
+
+def separate_returned_argument(tree: ast.Module, returns_arg: dict) -> bool:
+    """N17: f returns its k-th argument unchanged on every path (pre-scan of the whole program).  `y = f(.., a, ..)` with a
+    plain name `a` becomes `f(.., a, ..); y = a`; likewise `return f(a)`, and a call evaluated exactly once inside a simple
+    statement with nothing effectful evaluated before it is hoisted in front of the statement and replaced by `a`."""
+    if not returns_arg:
+        return False
+    changed = False
+
+    def hit(c):
+        if not isinstance(c, ast.Call) or c.keywords or any(isinstance(a, ast.Starred) for a in c.args):
+            return None
+        nm = f"{c.func.value.id}.{c.func.attr}" if isinstance(c.func, ast.Attribute) and isinstance(c.func.value, ast.Name) else c.func.id if isinstance(c.func, ast.Name) else None
+        k = returns_arg.get(nm)
+        if k is None or k >= len(c.args) or not isinstance(c.args[k], ast.Name):
+            return None
+        return c.args[k]
+
+    def do_block(stmts):
+        nonlocal changed
+        out = []
+        for s in stmts:
+            for fld in ("body", "orelse", "finalbody"):
+                b = getattr(s, fld, None)
+                if isinstance(b, list) and b and isinstance(b[0], ast.stmt):
+                    setattr(s, fld, do_block(b))
+            if isinstance(s, ast.Try):
+                for h in s.handlers:
+                    h.body = do_block(h.body)
+            if isinstance(s, (ast.Assign, ast.AnnAssign, ast.Return, ast.Expr)) and getattr(s, "value", None) is not None:
+                root = s.value
+                if isinstance(s, ast.Expr) and hit(root) is not None:
+                    out.append(s)
+                    continue
+                cands = [c for c in ast.walk(root) if hit(c) is not None]
+                cands = [c for c in cands if _evaluated_exactly_once(root, c) and all(_nonmutating_call(x) for x in _calls_before_node(root, c))]
+                if cands:
+                    c = cands[0]
+                    a = hit(c)
+                    pre = ast.Expr(value=copy.deepcopy(c))
+                    ast.copy_location(pre, s)
+
+                    class R(ast.NodeTransformer):
+                        def visit_Call(self, node):
+                            if node is c:
+                                return ast.copy_location(ast.Name(id=a.id, ctx=ast.Load()), node)
+                            return self.generic_visit(node)
+                    s.value = R().visit(s.value)
+                    ast.fix_missing_locations(pre)
+                    ast.fix_missing_locations(s)
+                    out.extend([pre, s])
+                    changed = True
+                    continue
+            out.append(s)
+        return out
+
+    for f in [n for n in ast.walk(tree) if isinstance(n, (ast.FunctionDef, ast.AsyncFunctionDef))]:
+        f.body = do_block(f.body)
+    return changed
+
+
+def expand_kwargs_dicts(tree: ast.Module) -> bool:
+    """N22: `kw = {'a': E1, 'b': E2}` ... `f(x, **kw)` with kw used nowhere else  ->  `__kw_a = E1; __kw_b = E2` ...
+    `f(x, a=__kw_a, b=__kw_b)`: the values are still evaluated where the dict literal was, and reach the call under the
+    same keyword names in the same order."""
+    changed = False
+    for f in [n for n in ast.walk(tree) if isinstance(n, (ast.FunctionDef, ast.AsyncFunctionDef))]:
+        sc = _ScopeCounts(f)
+        uses = {}
+        for c in ast.walk(f):
+            if isinstance(c, ast.Call):
+                for k in c.keywords:
+                    if k.arg is None and isinstance(k.value, ast.Name):
+                        uses.setdefault(k.value.id, []).append((c, k))
+        for nm, us in uses.items():
+            if len(us) != 1 or sc.stores.get(nm, 0) != 1 or sc.loads.get(nm, 0) != 1:
+                continue
+            holder = None
+            for blk_owner in ast.walk(f):
+                for fld in ("body", "orelse", "finalbody"):
+                    b = getattr(blk_owner, fld, None)
+                    if isinstance(b, list):
+                        for i, st in enumerate(b):
+                            if isinstance(st, (ast.Assign, ast.AnnAssign)) and isinstance(st.targets[0] if isinstance(st, ast.Assign) else st.target, ast.Name) and (st.targets[0] if isinstance(st, ast.Assign) else st.target).id == nm and isinstance(st.value, ast.Dict):
+                                holder = (b, i, st)
+            if holder is None:
+                continue
+            b, i, st = holder
+            d = st.value
+            if not d.keys or not all(isinstance(k, ast.Constant) and isinstance(k.value, str) and k.value.isidentifier() for k in d.keys):
+                continue
+            call, kwnode = us[0]
+            if any(k.arg in {kk.value for kk in d.keys} for k in call.keywords if k.arg):
+                continue
+            assigns, kws = [], []
+            for kk, vv in zip(d.keys, d.values):
+                tmp = f"__{nm.strip('_')}_{kk.value}"
+                a = ast.Assign(targets=[ast.Name(id=tmp, ctx=ast.Store())], value=vv)
+                ast.copy_location(a, st)
+                assigns.append(a)
+                kws.append(ast.keyword(arg=kk.value, value=ast.Name(id=tmp, ctx=ast.Load())))
+            b[i:i + 1] = assigns
+            pos = call.keywords.index(kwnode)
+            call.keywords[pos:pos + 1] = kws
+            ast.fix_missing_locations(f)
+            changed = True
+    return changed
+
+
+def normalize_module(tree: ast.Module, max_rounds: int = 6, returns_arg: dict | None = None, foreign_refs: set | None = None) -> ast.Module:
     for _ in range(max_rounds):
         bn = BlockNormalizer()
         bn.run(tree)
@@ -1433,7 +2094,13 @@ def normalize_module(tree: ast.Module, max_rounds: int = 6) -> ast.Module:
             bn.changed = True
         if inline_nested_predicates(tree):
             bn.changed = True
-        inl = Inliner(tree)
+        if strip_truth_casts(tree):
+            bn.changed = True
+        if expand_kwargs_dicts(tree):
+            bn.changed = True
+        if separate_returned_argument(tree, returns_arg or {}):
+            bn.changed = True
+        inl = Inliner(tree, foreign_refs=foreign_refs or set())
         inl.run()
         if not (bn.changed or inl.changed):
             break
